@@ -208,7 +208,7 @@ impl BudgetEnforcer {
     /// within limits) -- except at a document start under per-document enforcement, which must
     /// work from *any* state (the previous document may have been abandoned after an error).
     spec fn observe_pre(&self, ev: Event<'_>) -> bool {
-        ||| (ev is DocumentStart && self.per_doc() && self.report.events < usize::MAX)
+        ||| (ev is DocumentStart && self.per_doc())
         ||| (self.inv() && within(self.abs(), self.budget, self.per_doc()) && self.room())
     }
 }
